@@ -47,6 +47,28 @@ Theorem C15_mean_between_extremes : forall l, l <> [] -> lmin l <= mean l <= lma
 Proof. exact mean_between_extremes. Qed.
 Print Assumptions C15_mean_between_extremes.
 
+(* the statistics: the most frequent value is an observed value that no other observed value beats in frequency;
+   a constant strategy fills with the constant; a criterion without gaps is returned as it is; the filling value
+   depends on the observed values only *)
+Theorem C15_most_frequent_is_observed_and_most_frequent : forall l,
+  l <> [] -> In (mode l) l /\ forall y, In y l -> (countQ y l <= countQ (mode l) l)%nat.
+Proof. intros l H. split; [apply mode_is_observed; exact H|intros y; apply mode_is_most_frequent]. Qed.
+Print Assumptions C15_most_frequent_is_observed_and_most_frequent.
+
+Theorem C15_constant_fills_the_constant : forall v c i,
+  (i < length c)%nat -> nth i c None = None -> nth i (simple_impute_col (SConst v) c) 0%Q = v.
+Proof. exact constant_fills_the_constant. Qed.
+Print Assumptions C15_constant_fills_the_constant.
+
+Theorem C15_complete_criterion_untouched : forall s c, simple_impute_col s (map Some c) = c.
+Proof. exact complete_criterion_untouched. Qed.
+Print Assumptions C15_complete_criterion_untouched.
+
+Theorem C15_fill_depends_on_observed_values_only : forall s c c',
+  observed c = observed c' -> fill_value s c = fill_value s c'.
+Proof. exact fill_depends_on_observed_only. Qed.
+Print Assumptions C15_fill_depends_on_observed_values_only.
+
 Example C15_example :
   simple_impute_col SMedian [Some 5; None; Some 1; Some 3] = [5; 3; 1; 3] /\
   simple_impute_col SMode [Some 2; None; Some 7; Some 7; Some 2] = [2; 2; 7; 7; 2] /\
